@@ -40,7 +40,7 @@ def gen_payload(rng, cs, compressible):
 def gen_desc(rng, cb, ro, version, shuffle, minimal, few=False):
     cs = 1 << cb
     l2e = cs // 8
-    nalloc = rng.randrange(0, 4) if few else rng.choice((0, 1, 5, 20, 64, 90))
+    nalloc = rng.randrange(0, 4) if few else rng.choice((0, 1, 5, 20, 64, 90) + ((300,) if cb <= 10 else ()))
     span = rng.choice((1, 2, 3)) * l2e if (cb <= 12 and not few) else rng.choice((4, 70, 300))
     if 12 < cb <= 16 and rng.random() < 0.1:
         span = 2 * l2e + 5                             # several L1 entries with big clusters too
@@ -225,7 +225,9 @@ def negative_tests(st):
 
 
 def main():
-    seed = int(sys.argv[1]) if len(sys.argv) > 1 else 20260925
+    args = [a for a in sys.argv[1:] if a != '--quick']
+    quick = '--quick' in sys.argv[1:]                  # skip the slow external runs on 2 MiB clusters
+    seed = int(args[0]) if args else 20260925
     rng = random.Random(seed)
     st = Stats()
     have_qdrv = os.access(QDRV, os.X_OK)
@@ -239,6 +241,20 @@ def main():
         t1 = time.time()
         qimg.build(d64)
         print('64-cluster (64 KiB clusters) build: %.1f ms' % ((time.time() - t1) * 1000))
+        # multi-cluster L1 table and refcount table: 512-byte clusters, 64-bit refcounts
+        batch = []
+        for sh in (None, 5):
+            cl = {g: ('data', bytes([g & 255, g >> 8]) * 256) for g in range(0, 5000, 1) if g % 6}
+            desc = qimg.ImageDesc(cluster_bits=9, refcount_order=6, size=5000 * 512, clusters=cl, shuffle_seed=sh)
+            img, truth = qimg.build(desc)
+            st.images += 1
+            if truth['rt_clusters'] < 2 or truth['l1_size'] <= 64:
+                st.fail('big tables', 'expected multi-cluster L1 and refcount table')
+            check_internal(st, 'big tables shuffle=%s' % sh, desc, img, truth)
+            batch.append(('big tables shuffle=%s' % sh, desc, img, truth))
+        if have_qdrv:
+            check_external(st, tmp, batch)
+        print('big tables done: %d failures, %.1fs' % (st.failures, time.time() - t0), flush=True)
         for cb in list(range(9, 17)) + [21]:
             batch = []
             few = cb == 21
@@ -246,8 +262,11 @@ def main():
                 combos = [(3, sh, mn) for sh in (False, True) for mn in (False, False, True)]
                 if ro == 4:
                     combos += [(2, sh, mn) for sh in (False, True) for mn in (False, False, True)]
-                if few:
-                    combos = combos[::3] if ro != 4 else combos[::2]
+                if few:         # 2 MiB clusters: few images, few clusters
+                    combos = [(3, False, False), (3, True, False), (3, True, True)] + ([(2, True, False)] if ro == 4 else [])
+                # The extracted checker walks every entry of every refcount block in unary-ish
+                # arithmetic: with 2 MiB clusters that is only affordable for wide refcounts.
+                external = have_qdrv and not (few and (quick or ro < 3))
                 for rep in range(1 if few else 2):
                     for version, sh, mn in combos:
                         desc = gen_desc(rng, cb, ro, version, sh, mn, few)
@@ -259,14 +278,15 @@ def main():
                             continue
                         st.images += 1
                         check_internal(st, tag, desc, img, truth)
-                        batch.append((tag, desc, img, truth))
-                        if have_qdrv and len(batch) >= (4 if few else 40):
+                        if external and not (few and mn):
+                            batch.append((tag, desc, img, truth))
+                        if len(batch) >= (3 if few else 40):
                             check_external(st, tmp, batch)
                             batch = []
-            if have_qdrv and batch:
+            if batch:
                 check_external(st, tmp, batch)
             print('cluster_bits=%d done: %d images so far, %d failures, %.1fs'
-                  % (cb, st.images, st.failures, time.time() - t0))
+                  % (cb, st.images, st.failures, time.time() - t0), flush=True)
     finally:
         shutil.rmtree(tmp, ignore_errors=True)
     print('images=%d qdrv_checked=%d qdrv_map_compared=%d failures=%d' %
